@@ -128,6 +128,50 @@ func main() {
 		}
 	}))
 
+	// ---- an error VALUE shared by all requests (a package-level sentinel built as a literal, without an ID): encoding it for one request
+	// leaves it as it was, and nothing of one response (its ID) shows up in another
+	out.Encode(scenario("shared-error-value", func(t *tally) {
+		for _, name := range []string{"undeclared", "busy"} {
+			sentinel := &goa.ServiceError{Name: name, Message: "shared sentinel", Temporary: name == "busy"}
+			before := fmt.Sprintf("%+v", *sentinel)
+			enc := goahttp.ErrorEncoder(goahttp.ResponseEncoder, nil)
+			var mu sync.Mutex
+			ids := map[string]int{}
+			for r := 0; r < R; r++ {
+				together(N, func(i int) {
+					t.call()
+					rec := httptest.NewRecorder()
+					ctx := context.WithValue(context.Background(), goahttp.AcceptTypeKey, "application/json")
+					if e := enc(ctx, rec, sentinel); e != nil {
+						t.bad("encode error: %v", e)
+						return
+					}
+					var body struct {
+						ID string `json:"id"`
+					}
+					if err := json.Unmarshal(rec.Body.Bytes(), &body); err != nil {
+						t.bad("request %d: body %q", i, rec.Body.String())
+						return
+					}
+					if body.ID != "" {
+						mu.Lock()
+						ids[body.ID]++
+						mu.Unlock()
+					}
+				})
+			}
+			if after := fmt.Sprintf("%+v", *sentinel); after != before {
+				t.bad("the error value returned by the service was modified by the encoder: %s -> %s", before, after)
+			}
+			for id, n := range ids {
+				if n > 1 {
+					t.bad("the id %q of one response appears in %d responses", id, n)
+					break
+				}
+			}
+		}
+	}))
+
 	// ---- response encoder / request decoder negotiation is a function of the request's own headers
 	out.Encode(scenario("content-negotiation", func(t *tally) {
 		accepts := []struct{ accept, ct string }{{"application/json", "application/json"}, {"application/xml", "application/xml"},
